@@ -1,6 +1,6 @@
 (* C11 — comparison functions for the generated correspondence files *)
 From Coq Require Import List NArith ZArith Bool String Ascii.
-From T4V Require Import Base.Str Base.Cases C11.Model.
+From T4V Require Import Base.Str Base.Cases C11.Model C11.Regex.
 Import ListNotations.
 
 Fixpoint ast_eqb (a b : ast) : bool :=
@@ -109,3 +109,63 @@ Fixpoint fp_upto (al : list ascii) (prefix : string) (n : nat) (acc : N * N) : N
 
 Definition bucket_fp (al : list ascii) (prefix : string) (n : nat) : N * N := fp_upto al prefix n (0, 0).
 Definition bucket_fp_exact (al : list ascii) (prefix : string) (n : nat) : N * N := fp_exact al prefix n (0, 0).
+
+(* ---- ties of the code-shaped model (Regex.v), step by step ----
+   weighted sums over all strings prefix ++ s, |s| <= n, of a hash of what one
+   function returns; the harness computes the same sums from the regexes / the
+   PEG of the repository *)
+Definition alphaX : list ascii := ["1"; "2"; "-"; "#"; "("; ")"; ":"; " "; "."; "^"; "_"; "*"]%char.
+Definition alphaP : list ascii := ["1"; "2"; "-"; "+"; "."; "("; ")"; ":"; "*"; "^"; "_"]%char.
+
+Definition fp_gen_exact (g : string -> N) (al : list ascii) (prefix : string) (n : nat) (acc : N) : N :=
+  fold_left (fun a s => let t := (prefix ++ s)%string in (a + h_str t 7 * g t) mod fpP) (strings_len al n) acc.
+
+Fixpoint fp_gen (g : string -> N) (al : list ascii) (prefix : string) (n : nat) (acc : N) : N :=
+  let acc' := fp_gen_exact g al prefix n acc in
+  match n with O => acc' | S k => fp_gen g al prefix k acc' end.
+
+Definition regex_step (k : nat) (s : string) : string :=
+  match k with
+  | 0%nat => strip s
+  | 1%nat => sub_compl_cell (fl s) s
+  | 2%nat => sub_compl_surf (fl s) s
+  | 3%nat => sub_union (fl s) s
+  | 4%nat => sub_pareno (fl s) s
+  | 5%nat => sub_parenc (fl s) s
+  | 6%nat => sub_pareno_before s
+  | 7%nat => sub_parenc_after s
+  | 8%nat => sub_spaces (fl s) s
+  | _ => normalize2 s
+  end.
+
+Definition alphaXq : list ascii := ["1"; "-"; "#"; "("; ")"; ":"; " "; "^"; "_"; "*"]%char.
+Definition step_fp_on (al : list ascii) (k : nat) (prefix : string) (n : nat) : N :=
+  fp_gen (fun t => h_str (regex_step k t) 11) al prefix n 0.
+Definition step_fp (k : nat) (prefix : string) (n : nat) : N := step_fp_on alphaX k prefix n.
+
+(* '_' directly followed by a digit: the grammar's [cell] alternative (private syntax) *)
+Fixpoint has_cell_syntax (s : string) : bool :=
+  match s with
+  | String c r =>
+      match r with
+      | String d _ => (Ascii.eqb c "_" && is_digit d) || has_cell_syntax r
+      | EmptyString => false
+      end
+  | EmptyString => false
+  end.
+
+Definition peg_fp (prefix : string) (n : nat) : N :=
+  fp_gen (fun t => if has_cell_syntax t then 0 else h_res (peg_start t)) alphaP prefix n 0.
+
+(* get_ast2 against the implementation, same fingerprint as bucket_fp *)
+Definition fp_step2 (acc : N * N) (s : string) : N * N :=
+  let r := get_ast2 s in
+  (match r with Ok _ => fst acc + 1 | Err _ => fst acc end,
+   (snd acc + h_str s 7 * h_res r) mod fpP).
+Definition bucket_fp2_exact (al : list ascii) (prefix : string) (n : nat) : N * N :=
+  fold_left (fun a s => fp_step2 a (prefix ++ s)%string) (strings_len al n) (0, 0).
+(* the two models agree on a bucket (thorough tier: beyond the bound proved in RegexProofs.v) *)
+Definition models_agree_exact (al : list ascii) (prefix : string) (n : nat) : bool :=
+  forallb (fun s => let t := (prefix ++ s)%string in res_eqb (get_ast2 t) (get_ast t)) (strings_len al n).
+Definition models_agree_upto (al : list ascii) (prefix : string) (n : nat) : bool :=
+  forallb (fun k => models_agree_exact al prefix k) (seq 0 (S n)).
